@@ -73,6 +73,31 @@ Example C03_outside_F15_example :
   calm (f15_case_cfg tree_fixes) (number 0 [[HRespond ONone 0 0]; [HRespond ONone 0 0]]) [IReq f15_req0; IReq f15_req1] = false.
 Proof. vm_compute. repeat split; reflexivity. Qed.
 
+(* WHY the class above is coarser than the harness's predicate for body-bearing requests: the
+   harness keeps "response sent with the content-length body unread, rest of the body + follower in
+   a LATER read, response body not pending" outside its class, because LINGER / SHUTDOWN|FINISHED
+   is entered before anything else is read. That argument depends on the ORDER of regions inside
+   one poll (read phase, then response phase): for arbitrary event sequences the statement is
+   false -- two read phases in a row decode the rest of the body and queue the follower before the
+   closing response completes. The same input delivered as polls is quiet. So a theorem for the
+   smaller class cannot be an invariant of [step]; it needs an induction over whole polls with a
+   read-boundary-indexed stream condition (not done; the gap is judged by the oracle: see
+   notes/C03.md for the measured size). *)
+Theorem C03_smaller_class_needs_poll_order :
+  let c := mkCfg (KaTimeout 5000) 0 0 true false tree_fixes in
+  let r0 := mkReq 0 false true ONone RBLen in            (* POST, content-length body, handler reads nothing *)
+  let r1 := mkReq 1 false true ONone RBNone in
+  let hs := [[HRespond ONone 5 0]; [HRespond ONone 0 0]] in
+  let e1 := mkRound 0 [IReq r0; IData 3] RPending false false false in
+  let e2 := mkRound 3 [IData 2; IEnd; IReq r1] RPending false false false in
+  (* inside the Coq class *)
+  calm c (number 0 hs) (r_arrive e1 ++ r_arrive e2) = false /\
+  (* as polls: quiet *)
+  quiet_after_close (trace (run_polls c [e1; e2; mkRound 3 [] RPending false false false] (init c hs))) = true /\
+  (* as an event sequence that no poll produces: the follower is answered after the closing response *)
+  quiet_after_close (trace (run_events c [EEnv e1; EReadPhase; EEnv e2; EReadPhase; EResponsePhase false; EEpilogue] (init c hs))) = false.
+Proof. vm_compute. repeat split; reflexivity. Qed.
+
 (* What holds of the code as it is: a SEALED state (closing response complete, nothing queued, read
    side stopped or lingering / shutting down; or closing response still streaming) is never left and
    adds no response head and no service call, whatever events follow. The three repairs together
